@@ -4,7 +4,7 @@ import subprocess
 import vlib
 
 META = {
-    "engine": "RefCount.tla, Trace_Counter.tla",
+    "engine": "RefCount.tla, RefCountInd.tla, Trace_Counter.tla",
     "technique": "TLC explores all handle programs x all interleavings of the library's atomic steps on RefCount.tla (invariants: alive while "
                  "referenced, destroyed once, no use after free); every transition's history is forced onto real threads by a "
                  "token-passing scheduler hooked into atomicInc/atomicDec and compared step by step; free-running contended "
@@ -37,6 +37,18 @@ def run(ctx):
     ctx.rule = ("one case per transition of the RefCount state graph: per-thread programs of copy/drop/assign plus the schedule "
                 "(thread of every atomic step) and the expected destroyed-flags after every step; non-trivial = all; distinct by line")
     ctx.replay(rep, cases, label="R/RefCount", args=["--batch", "300"], timeout=ctx.pick(900, 3600))
+    # unbounded number of operations: the protocol's inductive invariant, discharged symbolically by Apalache
+    wd = os.path.join(ctx.tmp, "apalache")
+    obligations = [("base", ["--cinit=CInit", "--init=Init", "--inv=IndInv", "--length=0"]),
+                   ("step", ["--cinit=CInit", "--init=IndInv", "--inv=IndInv", "--length=1"]),
+                   ("IndInv=>Safe", ["--cinit=CInit", "--init=IndInv", "--inv=Safe", "--length=0"])]
+    for name, args in obligations:
+        ok, out = vlib.apalache("RefCountInd", args, wd, timeout=600)
+        if not ok:
+            raise vlib.HarnessError("Apalache obligation '%s' of RefCountInd.tla failed:\n%s" % (name, out))
+    ctx.engines.append("RefCountInd.tla: inductive invariant IndInv (3 threads, unbounded operations) discharged by Apalache: "
+                       "base, step, IndInv => Safe")
+    ctx.extra["apalache_obligations"] = len(obligations)
     # V: free-running contended executions, every atomic result logged, linearized by TLC
     rec = vlib.build_harness(lib, "c12_record", ["c12_record.cpp"])
     files = ctx.record(rec, ctx.pick(8, 32), ctx.pick(6000, 40000), "V/Counter", timeout=ctx.pick(300, 1500))
